@@ -10,6 +10,7 @@ FN = "gbasis.integrals._moment_int."
 
 
 class MomentIntermediate:
+    fp = True  # also sampled on the unmodified float64 code (bounded stand-in for rounding)
     """ensures out[k,j,i,ax,pb,pa] = int (x-A)^i (x-B)^j (x-C)^k exp(-a(x-A)^2 - b(x-B)^2) dx
     for every index; frame: assigns nothing; fresh result."""
 
